@@ -14,8 +14,8 @@ from harness import stmt_wire as SW
 META_PART = "statement layer: Coq model of declaration/assignment/control-flow translation (Lang/Stmt*.v) with a simulation theorem; tie = IR of the real parser vs model on generated programs; oracle = firmware trace vs CPython trace"
 
 FEATURE_SETS = [(), ("float",), ("funcs",), ("tuple",), ("float", "funcs", "tuple"), ("branch_first",),
-                # `continue` (repaired defect F-C01-continue-dropped): outside the Coq statement fragment (Lang/StmtAst.v has no
-                # continue constructor), so these programs reach the firmware-vs-CPython trace oracle only
+                # `continue` (repaired defect F-C01-continue-dropped): inside the Coq statement fragment (PContinue / NContinue /
+                # NReturn): these programs go through the IR and execution correspondences and the trace oracle
                 ("continue",), ("continue", "float", "funcs", "tuple")]
 
 WITNESSES = {
@@ -58,7 +58,7 @@ CORPUS = [
              ("write", "i1"), ("write", "i2"), ("assign", "i3", "0"), ("for", "k0", "5", [("assign", "i3", "(i3 + k0)")]),
              ("tuple", ["i4", "i5"], ["(i3 - 5)", "(i3 * 2)"]), ("write", "(i4 + i5)")],
      "main": [("assign", "i0", "(i0 + 1)"), ("if", [("(i1 < i0 < i2)", [("write", "i2")])], [("write", "i4")])]},
-    # `continue` (repaired; oracle only): the former witness; for-range (the C loop still advances its variable); while (the
+    # `continue` (repaired; inside the model): the former witness; for-range (the C loop still advances its variable); while (the
     # condition is re-tested); under nested ifs; in an else arm; in the inner of two loops; in the body of the main loop,
     # directly under an if, under nested ifs and inside a for loop of the main loop (there it continues the for loop only)
     {"pre": [("for", "k0", "4", [("if", [("(k0 == 2)", [("continue",)])], []), ("write", "k0")])], "main": None},
@@ -631,9 +631,9 @@ def run_unit(ctx: C.Ctx):
         "C int = Z and device float = Q in the models: runs that leave the 32-bit / binary32 range are detected on the CPython side and excluded, not blamed"]
     return {
         "distribution": distribution, "outside_guard_samples": outside[:3],
-        "theorems": "C01_no_silent_drop, C01_break_guard (all programs transl accepts); C01_stmt_preserve_partial (simulation inside StmtGuard.guard_ok, modulo the shared expression semantics + SemFacts.sem_facts); C01_stmt_{range_bound,retype,promotion_reinit,loop_local_reinit}_refuted (witnesses = listed findings)",
-        "guard": "StmtGuard.guard_ok: every variable first assigned at top level of the setup part (global) or at top level of the `while True:` body before any read in that body (loop() local); later assignments keep the type label; tuple assignment only as the declaration of distinct new names at top level of the setup part; range() bound int-labelled, independent of the loop variable and of names the body assigns; loop variables fresh, unassigned, read only inside their loop; consistent expression ids.  Oracle guard (dynamic): no computed int leaves 32 bits (CPython run with every expression instrumented); a script whose deviation the extracted model itself predicts (outside guard_ok) is not blamed.  `continue` is inside the oracle's domain since the repair of the parser (programs with `continue` in for / while loops, under nested ifs and in the body of the main loop are generated and compared trace against trace) but OUTSIDE the Coq statement fragment: no theorem speaks about it",
-        "unmodelled": ["helper functions, lists, try/except, device objects (firmware-vs-CPython oracle only)", "`continue`: Lang/StmtAst.v has no constructor for it (a stated limit of the proved fragment); its translation (ContinueStmt -> `continue;`, at main-loop level -> `return;`, misplaced -> ValueError) is covered by the firmware-vs-CPython trace oracle and by C07's dispatch table only", "tuple swaps (temporaries) and hoisting (promotion) are in Lang.Transl and in the executable correspondence, but outside the simulation theorem's guard", "expression translation (unit C01_expr): the simulation is modulo a shared opaque expression semantics", "16-bit int of a real AVR"],
+        "theorems": "C01_no_silent_drop, C01_break_guard, C01_continue_guard, C01_continue_translation (all programs); C01_stmt_preserve_partial (simulation inside StmtGuard.guard_ok, modulo the shared expression semantics + SemFacts.sem_facts); C01_stmt_{range_bound,retype,promotion_reinit,loop_local_reinit}_refuted (witnesses = listed findings)",
+        "guard": "StmtGuard.guard_ok: every variable first assigned at top level of the setup part (global) or at top level of the `while True:` body before any read in that body (loop() local); later assignments keep the type label; tuple assignment only as the declaration of distinct new names at top level of the setup part; range() bound int-labelled, independent of the loop variable and of names the body assigns; loop variables fresh, unassigned, read only inside their loop; consistent expression ids.  Oracle guard (dynamic): no computed int leaves 32 bits (CPython run with every expression instrumented); a script whose deviation the extracted model itself predicts (outside guard_ok) is not blamed.  `continue` is inside the guard (any placement the parser accepts: in for / while loops, under nested ifs, in the body of the main loop where it is `return;` from loop())",
+        "unmodelled": ["helper functions, lists, try/except, device objects (firmware-vs-CPython oracle only)", "tuple swaps (temporaries) and hoisting (promotion) are in Lang.Transl and in the executable correspondence, but outside the simulation theorem's guard", "expression translation (unit C01_expr): the simulation is modulo a shared opaque expression semantics", "16-bit int of a real AVR"],
         "evaluations": len(progs) + len(lsrcs) + ir["ir_cases"] + ir.get("exec_cases", 0), "list_programs_by_status": dict(lstats), "programs_by_status": dict(stats), "ir_correspondence": ir,
         "distinct_nontrivial": len({s for s, r in zip(srcs, res) if r["status"] == "equal" and len(r["py"]) >= 3}),
         "samples": [srcs[0][len(progen.HEADER):], srcs[-1][len(progen.HEADER):]],
